@@ -1,4 +1,4 @@
-//go:build !verif && (!only || only_c19)
+//go:build verif && (!only || only_c19)
 
 package main
 
